@@ -100,8 +100,47 @@ func gen(gg *hx.Gen) {
 	r := gg.R
 	g := &bufGen{Gen: gg}
 	defer func() {
-		hx.Shuffle(r, g.lines)
+		// sessions: 2..5 consecutive calls of one family sharing key/nonce/ad/ct/dst buffers (contents rewritten
+		// in place), some repeated with the same contents, some on fresh arrays; the heavy all-bit-flip ops stay single
+		var single, fam [3][]string
 		for _, l := range g.lines {
+			switch {
+			case strings.HasPrefix(l, "open "):
+				fam[0] = append(fam[0], l)
+			case strings.HasPrefix(l, "sbopen "):
+				fam[1] = append(fam[1], l)
+			case strings.HasPrefix(l, "bxopen "):
+				fam[2] = append(fam[2], l)
+			default:
+				single[0] = append(single[0], l)
+			}
+		}
+		out := single[0]
+		for _, ls := range fam {
+			for i := 0; i < len(ls); {
+				if r.Chance(1, 8) && i+2 <= len(ls) {
+					k := min(r.Range(2, 5), len(ls)-i)
+					sub := append([]string(nil), ls[i:i+k]...)
+					if r.Chance(1, 3) {
+						sub = append(sub, sub[r.Intn(len(sub))])
+					}
+					for j := range sub {
+						if r.Chance(1, 6) {
+							sub[j] += " fresh=1"
+						}
+					}
+					out = append(out, sessLine(sub))
+					gg.Stat("session")
+					gg.StatN("session.calls", len(sub))
+					i += k
+					continue
+				}
+				out = append(out, ls[i])
+				i++
+			}
+		}
+		hx.Shuffle(r, out)
+		for _, l := range out {
 			gg.Emit("%s", l)
 		}
 	}()
@@ -268,16 +307,6 @@ func gen(gg *hx.Gen) {
 	}
 }
 
-// buffer with len(dst) bytes of dst and `spare` bytes of capacity pre-filled with the marker
-func withCap(dst []byte, spare int) []byte {
-	b := make([]byte, len(dst)+spare)
-	copy(b, dst)
-	for i := len(dst); i < len(b); i++ {
-		b[i] = fill
-	}
-	return b[:len(dst)]
-}
-
 func spareOf(b []byte) []byte { return b[len(b):cap(b)] }
 
 type opener func(dst, key, nonce, ct, ad []byte) ([]byte, error)
@@ -317,6 +346,25 @@ func rejectedSpareOK(got []byte, n int) bool {
 
 func exec(line string) string {
 	o := hx.Parse(line)
+	if o.Cmd == "sess" {
+		ar := newArena()
+		var outs []string
+		for _, sub := range strings.Split(o.Str("ops"), "|") {
+			so := hx.Parse(strings.ReplaceAll(sub, ";", " "))
+			a := ar
+			if so.Str("fresh") == "1" {
+				a = newArena()
+			}
+			outs = append(outs, hx.Catch(func() string { return execOne(so, a) }))
+		}
+		return strings.Join(outs, " ## ")
+	}
+	return execOne(o, newArena())
+}
+
+// all buffers come from the arena: within one op (the flip loops) and within a session they are the same
+// arrays with contents rewritten in place
+func execOne(o hx.Op, ar *arena) string {
 	dst0, spare := o.Hex("dst"), o.Int("cap")
 	switch o.Cmd {
 	case "open", "flips":
@@ -326,124 +374,102 @@ func exec(line string) string {
 		defer cp.VerifSetAVX2(origAVX2)
 		key, nonce, ad, ct := o.Hex("key"), o.Hex("nonce"), o.Hex("ad"), o.Hex("ct")
 		op := aeadOpener(x, path)
+		call := func(key, nonce, ct, ad []byte) (ret []byte, err error, sp []byte, mut string) {
+			ar.begin()
+			d := ar.Out("dst", dst0, spare, fill)
+			ret, err = op(d, ar.In("key", key), ar.In("nonce", nonce), ar.In("ct", ct), ar.In("ad", ad))
+			return ret, err, spareOf(d), ar.mutated()
+		}
 		if o.Cmd == "open" {
-			dst := withCap(dst0, spare)
-			ret, err := op(dst, key, nonce, ct, ad)
+			ret, err, sp, mut := call(key, nonce, ct, ad)
 			if err != nil {
 				if ret != nil {
 					return "err-with-data"
 				}
-				return "err z=" + hx.Hex(spareOf(dst))
+				return "err z=" + hx.Hex(sp) + mut
 			}
-			return "ok " + hx.Hex(ret) + " z=" + hx.Hex(spareOf(dst))
+			return "ok " + hx.Hex(ret) + " z=" + hx.Hex(sp) + mut
 		}
 		var acc, bad []string
 		n := 0
-		try := func(tag string, field []byte, call func(f []byte) ([]byte, error, []byte)) {
+		try := func(tag string, field []byte, f func(fl []byte) ([]byte, error, []byte, string)) {
 			for i := 0; i < 8*len(field); i++ {
 				n++
-				ret, err, sp := call(flipped(field, i))
+				ret, err, sp, mut := f(flipped(field, i))
 				if err == nil {
 					acc = append(acc, fmt.Sprintf("%s%d", tag, i))
 				} else if ret != nil || !rejectedSpareOK(sp, len(ct)-16) {
 					bad = append(bad, fmt.Sprintf("%s%d", tag, i))
 				}
+				if mut != "" {
+					bad = append(bad, fmt.Sprintf("%s%d:%s", tag, i, strings.TrimSpace(mut)))
+				}
 			}
 		}
-		try("c", ct, func(f []byte) ([]byte, error, []byte) {
-			d := withCap(dst0, spare)
-			r, e := op(d, key, nonce, f, ad)
-			return r, e, spareOf(d)
-		})
-		try("n", nonce, func(f []byte) ([]byte, error, []byte) {
-			d := withCap(dst0, spare)
-			r, e := op(d, key, f, ct, ad)
-			return r, e, spareOf(d)
-		})
-		try("a", ad, func(f []byte) ([]byte, error, []byte) {
-			d := withCap(dst0, spare)
-			r, e := op(d, key, nonce, ct, f)
-			return r, e, spareOf(d)
-		})
-		try("k", key, func(f []byte) ([]byte, error, []byte) {
-			d := withCap(dst0, spare)
-			r, e := op(d, f, nonce, ct, ad)
-			return r, e, spareOf(d)
-		})
+		try("c", ct, func(f []byte) ([]byte, error, []byte, string) { return call(key, nonce, f, ad) })
+		try("n", nonce, func(f []byte) ([]byte, error, []byte, string) { return call(key, f, ct, ad) })
+		try("a", ad, func(f []byte) ([]byte, error, []byte, string) { return call(key, nonce, ct, f) })
+		try("k", key, func(f []byte) ([]byte, error, []byte, string) { return call(f, nonce, ct, ad) })
 		return fmt.Sprintf("n=%d acc=%s bad=%s", n, hx.JoinStrs(acc), hx.JoinStrs(bad))
 	case "sbopen", "sbflips":
-		var key [32]byte
-		var nonce [24]byte
-		copy(key[:], o.Hex("key"))
-		copy(nonce[:], o.Hex("nonce"))
-		bx := o.Hex("box")
+		key, nonce, bx := o.Hex("key"), o.Hex("nonce"), o.Hex("box")
+		call := func(key, nonce, bx []byte) (ret []byte, ok bool, sp []byte, mut string) {
+			ar.begin()
+			d := ar.Out("dst", dst0, spare, fill)
+			ret, ok = secretbox.Open(d, ar.In("box", bx), ar.K24("nonce", nonce), ar.K32("key", key))
+			return ret, ok, spareOf(d), ar.mutated()
+		}
 		if o.Cmd == "sbopen" {
-			dst := withCap(dst0, spare)
-			ret, ok := secretbox.Open(dst, bx, &nonce, &key)
-			return naclRes(ret, ok, dst)
+			ret, ok, sp, mut := call(key, nonce, bx)
+			return naclRes(ret, ok, sp) + mut
 		}
 		var acc, bad []string
 		n := 0
-		try := func(tag string, field []byte, call func(f []byte) ([]byte, bool, []byte)) {
+		try := func(tag string, field []byte, f func(fl []byte) ([]byte, bool, []byte, string)) {
 			for i := 0; i < 8*len(field); i++ {
 				n++
-				ret, ok, sp := call(flipped(field, i))
+				ret, ok, sp, mut := f(flipped(field, i))
 				if ok {
 					acc = append(acc, fmt.Sprintf("%s%d", tag, i))
 				} else if ret != nil || !bytes.Equal(sp, bytes.Repeat([]byte{fill}, len(sp))) {
 					bad = append(bad, fmt.Sprintf("%s%d", tag, i))
 				}
+				if mut != "" {
+					bad = append(bad, fmt.Sprintf("%s%d:%s", tag, i, strings.TrimSpace(mut)))
+				}
 			}
 		}
-		try("c", bx, func(f []byte) ([]byte, bool, []byte) {
-			d := withCap(dst0, spare)
-			r, ok := secretbox.Open(d, f, &nonce, &key)
-			return r, ok, spareOf(d)
-		})
-		try("n", nonce[:], func(f []byte) ([]byte, bool, []byte) {
-			d := withCap(dst0, spare)
-			var n2 [24]byte
-			copy(n2[:], f)
-			r, ok := secretbox.Open(d, bx, &n2, &key)
-			return r, ok, spareOf(d)
-		})
-		try("k", key[:], func(f []byte) ([]byte, bool, []byte) {
-			d := withCap(dst0, spare)
-			var k2 [32]byte
-			copy(k2[:], f)
-			r, ok := secretbox.Open(d, bx, &nonce, &k2)
-			return r, ok, spareOf(d)
-		})
+		try("c", bx, func(f []byte) ([]byte, bool, []byte, string) { return call(key, nonce, f) })
+		try("n", nonce, func(f []byte) ([]byte, bool, []byte, string) { return call(key, f, bx) })
+		try("k", key, func(f []byte) ([]byte, bool, []byte, string) { return call(f, nonce, bx) })
 		return fmt.Sprintf("n=%d acc=%s bad=%s", n, hx.JoinStrs(acc), hx.JoinStrs(bad))
 	case "bxopen":
-		var pub, priv [32]byte
-		var nonce [24]byte
-		copy(pub[:], o.Hex("pub"))
-		copy(priv[:], o.Hex("priv"))
-		copy(nonce[:], o.Hex("nonce"))
-		dst := withCap(dst0, spare)
+		ar.begin()
+		pub, priv, nonce := ar.K32("pub", o.Hex("pub")), ar.K32("priv", o.Hex("priv")), ar.K24("nonce", o.Hex("nonce"))
+		dst := ar.Out("dst", dst0, spare, fill)
+		bx := ar.In("box", o.Hex("box"))
 		var ret []byte
 		var ok bool
 		if o.Int("pre") == 1 {
 			var shared [32]byte
-			box.Precompute(&shared, &pub, &priv)
-			ret, ok = box.OpenAfterPrecomputation(dst, o.Hex("box"), &nonce, &shared)
+			box.Precompute(&shared, pub, priv)
+			ret, ok = box.OpenAfterPrecomputation(dst, bx, nonce, &shared)
 		} else {
-			ret, ok = box.Open(dst, o.Hex("box"), &nonce, &pub, &priv)
+			ret, ok = box.Open(dst, bx, nonce, pub, priv)
 		}
-		return naclRes(ret, ok, dst)
+		return naclRes(ret, ok, spareOf(dst)) + ar.mutated()
 	}
 	return "bad-op"
 }
 
-func naclRes(ret []byte, ok bool, dst []byte) string {
+func naclRes(ret []byte, ok bool, sp []byte) string {
 	if !ok {
 		if ret != nil {
 			return "fail-with-data"
 		}
-		return "fail z=" + hx.Hex(spareOf(dst))
+		return "fail z=" + hx.Hex(sp)
 	}
-	return "ok " + hx.Hex(ret) + " z=" + hx.Hex(spareOf(dst))
+	return "ok " + hx.Hex(ret) + " z=" + hx.Hex(sp)
 }
 
 var _ = strings.Join
